@@ -1408,6 +1408,9 @@ class FuncEval(ValueFunc):
         try:
             node = parse_script(s, pos.filename)
             return node.evaluate(environment)
+        except CklRuntimeError:
+            # an error raised by the evaluated code keeps its value
+            raise
         except Exception:
             raise CklRuntimeError(
                 ValueString("ERROR"), "Cannot evaluate expression", pos
